@@ -45,7 +45,7 @@ def fixed_corpus(u):
                                          Field(4, ('ptr', t), 'optional')]))
 
     # lists and sets of every element form
-    elems = ELEM_SCALARS + [('string',), ('binary',), PL, VL_, VO, ('list', ('i32',)), ('set', ('string',)),
+    elems = ELEM_SCALARS + [('string',), ('binary',), PL, VL_, VO, ('ptr', ('struct', 'Empty')), ('struct', 'Empty'), ('list', ('i32',)), ('set', ('string',)),
                             ('map', ('i32',), ('string',)), ('list', PL), ('map', ('string',), PL)]
     for e in elems:
         n = kname(e)
